@@ -144,11 +144,28 @@ Definition compare_indexes_and_uniques (tn:N) (conn_table metadata_table:option 
                          else obj_added tn supports_unique_constraints cod mk) metadata_cons.
 
 (* ---------------------------------------------------------------- _compare_foreign_keys *)
-(* _fk_constraint_sig.unnamed: (source table, source columns, target table, target columns) + options; the source table is
-   the same on both sides and there are no options in this universe (SQLite reports an "options" key, so the
-   with-options signature is the one compared; all options are None / "not deferrable" on both sides) *)
+(* _fk_constraint_sig._sig: (source table, source columns, target table, target columns) + (onupdate, ondelete, a
+   three-state deferrable value); the source table is the same on both sides.  SQLite reports an "options" key, so the
+   with-options signature `unnamed` is the one compared. *)
+(* (None if x.lower() == "no action" else x.lower()) if x else None *)
+Definition sig_action (a:option (list N)) : option (list N) :=
+  match a with
+  | Some [] | None => None
+  | Some s => if list_eqb N.eqb (lower s) s_no_action then None else Some (lower s)
+  end.
+Inductive defer3 := InitiallyDeferrable | Deferrable | NotDeferrable.
+Definition s_deferred : list N := [100;101;102;101;114;114;101;100].
+(* "initially_deferrable" if initially and initially.lower() == "deferred" else "deferrable" if deferrable else "not deferrable" *)
+Definition sig_defer (o:fkopts) : defer3 :=
+  if match o_initially o with Some s => list_eqb N.eqb (lower s) s_deferred | None => false end then InitiallyDeferrable
+  else match o_deferrable o with Some true => Deferrable | _ => NotDeferrable end.
+Definition defer3_eqb (a b:defer3) : bool :=
+  match a, b with InitiallyDeferrable, InitiallyDeferrable | Deferrable, Deferrable | NotDeferrable, NotDeferrable => true | _, _ => false end.
 Definition fk_sig_eqb (a b:fk) : bool :=
-  list_eqb N.eqb (f_cols a) (f_cols b) && N.eqb (f_rtable a) (f_rtable b) && list_eqb N.eqb (f_rcols a) (f_rcols b).
+  list_eqb N.eqb (f_cols a) (f_cols b) && N.eqb (f_rtable a) (f_rtable b) && list_eqb N.eqb (f_rcols a) (f_rcols b)
+  && opt_eqb (list_eqb N.eqb) (sig_action (o_onupdate (f_opts a))) (sig_action (o_onupdate (f_opts b)))
+  && opt_eqb (list_eqb N.eqb) (sig_action (o_ondelete (f_opts a))) (sig_action (o_ondelete (f_opts b)))
+  && defer3_eqb (sig_defer (f_opts a)) (sig_defer (f_opts b)).
 Definition compare_foreign_keys (tn:N) (conn_table metadata_table:option table) : list op :=
   match conn_table, metadata_table with
   | Some c, Some m =>
